@@ -38,6 +38,7 @@ class Row:
         self.stored = 0
         self.slot = []            # values assigned to the transfer slot
         self.zero_test = None
+        self.stored_args = []
         self.zero_of = None
         self.path = None
         self.other = []
@@ -164,6 +165,7 @@ def table(repo, canon, callee, call, caller_frame, residual_param='residual_data
                 for ef in effects_of_event(canon, e):
                     if ef.loc == stored and ef.kind == 'append':
                         r.stored += 1
+                        r.stored_args.append(ef.arg)
                     elif ef.loc == stored:
                         r.other.append('%s on stored' % ef.kind)
                 if isinstance(n, ast.Return) and n.value is not None:
@@ -208,6 +210,7 @@ def _copy_row(r):
     r2 = Row()
     for k in ('sign', 'small', 'dcap', 'res', 'rate', 'stored', 'zero_test', 'path'):
         setattr(r2, k, getattr(r, k))
+    r2.stored_args = list(r.stored_args)
     r2.slot = list(r.slot)
     r2.other = list(r.other)
     return r2
@@ -337,10 +340,18 @@ def check(repo, res, tier):
         what = '%s: receiver stores the observation exactly when the residual reaches 0' % f.name
         okv4 = True
         why = ''
+        obs_c = canon.c(ast.Name(id=rcal[0].params[1], ctx=ast.Load()), rsub)
         for r in rrows:
             reaches_zero = (r.res is not None and r.res.is_const() and r.res.const == 0) or r.zero_test is True
             if r.zero_test is False:
                 reaches_zero = False
+            if r.zero_test is None and r.res is not None and not r.res.is_const():
+                okv4, why = False, ('a step returns the residual %r without testing whether it has reached 0: the '
+                                    'transfer can complete without the observation being stored' % r.res)
+            if any(a != obs_c for a in r.stored_args):
+                okv4, why = False, ('the receiver stores %s, not the observation it was handed (%s): with two moves '
+                                    'in flight the wrong observation is stored' % (
+                                        short([a for a in r.stored_args if a != obs_c][0], 60), obs_c))
             if reaches_zero and r.stored != 1:
                 okv4, why = False, 'a step that completes the transfer stores the observation %d times' % r.stored
             if not reaches_zero and r.stored != 0:
@@ -357,6 +368,12 @@ def check(repo, res, tier):
                 res.bad('C18.V4', scal[0], sc, '%s: sender re-stores the observation' % f.name,
                         'the sending tier appends the observation to its own stored list during transfer: '
                         'it would be stored in both tiers')
+            if (reaches_zero and (not r.slot or r.slot[-1] != 'None')) or (
+                    r.zero_test is None and r.res is not None and not r.res.is_const()):
+                okv4 = False
+                res.bad('C18.V4', scal[0], sc, '%s: sender keeps the observation in its transfer slot' % f.name,
+                        'a step that completes the move (residual %r) leaves the observation in the sending tier\'s '
+                        'transfer slot: it is then counted in both tiers (has_capacity_for adds it again)' % r.res)
         # source pops into the transfer slot
         oft = [n for n in walk_no_nested(f.node) if isinstance(n, ast.Call) and call_name(n) == 'observation_for_transfer']
         okp = False
